@@ -77,6 +77,37 @@ Theorem C20_nonlayer_shift_refuted :
 Proof. exact nonlayer_shift_refuted. Qed.
 Print Assumptions C20_nonlayer_shift_refuted.
 
+(* 2e. Round trip, extra flavour (containerd's AppendInfoHandlerWrapper + AppendExtraLabelsHandler, read by the CRI
+   reader), any children list: whenever the handler succeeds, the reader returns the parsed pull reference, the
+   layer's digest, its URLs in wire form, and as neighbours the entries of containerd's cri.image-layers label other
+   than the target's digest; the URLs attached to the entry at position i are those stored under urls.<i>, i.e. the
+   URLs of the first child of the manifest carrying THAT digest (descriptors with equal digests denote one blob). *)
+Theorem C20_roundtrip_extra :
+  forall (parse_ref : str -> option str) children ref R pf md c rest l,
+    extra_ann children ref pf md (c :: rest) = Some l ->
+    parse_ref ref = Some R -> digest_valid (c_digest c) = true ->
+    let ds := split_comma (cri_layers_value (c :: rest)) in
+    read_cri parse_ref l = ROk R (c_digest c) (wire KUrls (c_urls c)) (neigh_spec l (c_digest c) 0 ds)
+    /\ (forall i d, nth_error ds i = Some d ->
+          urls_of l (KUrlsIdx i)
+          = match layer_from_digest children d with
+            | Some ch => if c_layer ch then wire (KUrlsIdx i) (c_urls ch) else []
+            | None => []
+            end)
+    /\ (forall d ch, layer_from_digest children d = Some ch -> In ch children /\ c_digest ch = d).
+Proof. exact roundtrip_extra. Qed.
+Print Assumptions C20_roundtrip_extra.
+
+(* 2e'. ... and that label lists a non-empty manifest-order prefix of the layer digests of children[i:]
+   (model of containerd's getLayers; digests of layer-typed children well-formed). *)
+Theorem C20_roundtrip_extra_layers_prefix :
+  forall c rest,
+    c_layer c = true -> digest_valid (c_digest c) = true ->
+    Forall (fun x => c_layer x = true -> digest_valid (c_digest x) = true) rest ->
+    exists n, split_comma (cri_layers_value (c :: rest)) = firstn n (map c_digest (filter c_layer (c :: rest))) /\ 1 <= n.
+Proof. exact roundtrip_extra_layers. Qed.
+Print Assumptions C20_roundtrip_extra_layers_prefix.
+
 (* 3. "The same URLs". Full statement:  forall k us, total_len us <= budget k -> wire k us = us.  It is false of the
    code (known findings F17a, F17b): refuted for the empty list (read back as [""]) and for a URL containing a comma. *)
 Theorem C20_urls_roundtrip_refuted :
